@@ -22,10 +22,10 @@ bool known_f5_toplevel_vector_unlimited_stream(int in_kind) {
   return f5_affected<T>::value && in_is_unlimited_stream(in_kind);
 }
 
-// F7 (finding of this target): an object that was already sized / serialized while one of its
+// Finding of this target (token c11-stale-field-cache): an object that was already sized / serialized while one of its
 // COMPLEX members (per-field cached size) was non-empty is serialized again after that member
 // became empty: calculate_serialized_size_field returns before it refreshes the field cache.
-bool known_f7_stale_field_cache(const std::vector<bool>& before, const std::vector<bool>& after) {
+bool known_stale_field_cache(const std::vector<bool>& before, const std::vector<bool>& after) {
   for (size_t i = 0; i < before.size() && i < after.size(); i++)
     if (!before[i] && after[i]) return true;
   return false;
@@ -74,7 +74,7 @@ void check_value(const T& v, Gen& g, const Pattern& pout, const Pattern& pin, st
       vfz::label("excluded_known_f5");
       continue;
     }
-    if (g.scalar_ptr_elem_null) vfz::label("allowed_known_f8");
+    if (g.scalar_ptr_elem_null) vfz::label("allowed_known_null_scalar_ptr_elem");
     auto fresh = std::make_unique<Holder<T>>();
     bool success = parse_with(ik, pin, ref, fresh->get());
     if (!success) vfz::fail(desc, "%s (chunks %s) rejected the bytes produced by serialize: %s", in_name(ik), pin.str().c_str(), hex(ref).c_str());
@@ -107,12 +107,12 @@ void run_root(vfz::Dec& d, int root, const uint8_t* data, size_t size) {
     complex_member_emptiness(v, after);
     T* subject = &v;
     std::unique_ptr<Holder<T>> clean;
-    if (round && known_f7_stale_field_cache(before, after)) {
-      if (allow_known("f7")) {
-        vfz::label("allowed_known_f7");
+    if (round && known_stale_field_cache(before, after)) {
+      if (allow_known("c11-stale-field-cache")) {
+        vfz::label("allowed_known_stale_field_cache");
       } else {
         // same value, but in a fresh object (no stale caches), so the value itself is still checked
-        vfz::label("excluded_known_f7");
+        vfz::label("excluded_known_stale_field_cache");
         clean = std::make_unique<Holder<T>>();
         d.i = rewind;
         Gen again(d);
